@@ -191,6 +191,44 @@ pub fn run(rep: &Report) -> i32 {
             rep.sample(4, || json!({"label": b.label, "program": b.text}));
         }
     });
+    // (A') witness-free programs: the verdict depends on the environment and on constants only
+    {
+        let bodies: Vec<(&str, Vec<Stmt>)> = vec![
+            ("lock-height-const", vec![Stmt::Expr(jet("check_lock_height", vec![dec(1500)]))]),
+            ("lock-height-999", vec![Stmt::Expr(jet("check_lock_height", vec![dec(999)]))]),
+            ("lock-distance-const", vec![Stmt::Expr(jet("check_lock_distance", vec![dec(800)]))]),
+            ("lock-time-const", vec![Stmt::Expr(jet("check_lock_time", vec![dec(500_000_050)]))]),
+            ("assert-false", vec![Stmt::Expr(assert_(boolean(false)))]),
+            ("assert-true", vec![Stmt::Expr(assert_(boolean(true)))]),
+            ("panic", vec![Stmt::Expr(call(CallName::Panic, vec![]))]),
+            ("nothing", vec![]),
+            (
+                "const-match-lock",
+                vec![Stmt::Expr(match_(
+                    jet("lt_8", vec![dec(1), dec(2)]),
+                    (MPat::True, block(vec![Stmt::Expr(jet("check_lock_height", vec![dec(1500)]))], None)),
+                    (MPat::False, block(vec![Stmt::Expr(call(CallName::Panic, vec![]))], None)),
+                ))],
+            ),
+            ("unwrap-none", vec![let_(Pat::id("x"), Ty::U(8), call(CallName::Unwrap, vec![Expr::None]))]),
+        ];
+        for (label, stmts) in bodies {
+            let text = Program { items: vec![Item::Fn(FnDef { name: "main".into(), params: vec![], ret: None, body: (stmts, None) })] }.render();
+            rep.state();
+            rep.eval(1);
+            match drive::build(&text, simfony::Arguments::default(), false) {
+                Ok(built) => {
+                    for e in ENVS {
+                        for extra in [false, true] {
+                            let m: Vec<(String, Val, Ty)> = if extra { vec![("UNUSED".into(), Val::u(8, 1), Ty::U(8))] } else { vec![] };
+                            compare(rep, &built, &text, &m, e, &format!("witness-free {label}"), true);
+                        }
+                    }
+                }
+                Err(o) => rep.violation("C18:branchy-not-compiled", format!("witness-free {label}: {o:?}"), json!({"kind": "compile", "program": text, "expect": "accept", "observed": "reject"})),
+            }
+        }
+    }
     // (B) the anchored term family: pruned == unpruned on every explored assignment
     let fams = c01::families(true);
     let (jobs2, fns, transitions, _) = c01::enumerate(&fams[..1], None);
